@@ -4,14 +4,13 @@ import (
 	"fmt"
 	"io"
 
-	"verif/uni"
 	"math"
 	"math/big"
+	"verif/uni"
 
 	"github.com/tuneinsight/lattigo/v6/core/rlwe"
 	"github.com/tuneinsight/lattigo/v6/multiparty"
 	"github.com/tuneinsight/lattigo/v6/ring"
-
 )
 
 // Flood returns the noise-flooding distribution of standard deviation sigma, truncated at 6 sigma
